@@ -6,7 +6,7 @@ from bridge_env.data_handler.json_handler.parser import (JsonParser, convert_boa
 from bridge_env.data_handler.json_handler.writer import (JsonBoardSettingWriter, JsonLogWriter,
                                                          JsonWriter)
 from bridge_env.data_handler.pbn_handler.writer import Scoring
-from pyvc.dsl import (Bool, Card as CardS, CardSet, Const, Dict, Enum, EnumElem, Ext, Int, Obj, OpaqueVal, TraceReset, LoopContract,
+from pyvc.dsl import (Bool, Card as CardS, CardSet, Const, Dict, Enum, EnumElem, Ext, Int, Obj, OpaqueVal, TraceReset, TracePrefix, LoopContract,
                       OneOf, Opt, Seq, Shape, TraceList, Tuple, contract, klass, lemma, transparent)
 from pyvc.speclib import (conj, disj, forall, iff, implies, ite, json_conforms, json_text,
                           load_schema, same)
@@ -354,12 +354,13 @@ def _list_inv():
     return True
 
 
-def _log_converted_in_place(outputs, d):
-    return outputs == [abstract_result(convert_board_log, d)]
+def _log_converted_in_place(outputs, d, iter):
+    # behind the records of the earlier iterations: document order is kept
+    return outputs == iter.outputs + [abstract_result(convert_board_log, d)]
 
 
-def _setting_converted_in_place(outputs, d):
-    return outputs == [abstract_result(convert_board_setting, d)]
+def _setting_converted_in_place(outputs, d, iter):
+    return outputs == iter.outputs + [abstract_result(convert_board_setting, d)]
 
 
 @contract('bridge_env.data_handler.json_handler.parser.JsonParser.parse_board_logs', props=['C12'])
@@ -368,7 +369,7 @@ class _parse_board_logs:
     raises = {Exception: 'onlyif'}      # a record outside the format
     exc_havoc = True
     modifies = ['fp']
-    loops = {0: LoopContract(invariant=_list_inv, havoc_heap=dict(outputs=TraceReset()),
+    loops = {0: LoopContract(invariant=_list_inv, havoc_heap=dict(outputs=TracePrefix()),
                              body_ensures=dict(record_converted_in_place=_log_converted_in_place))}
     # C12: nothing but a record outside the format makes the reader give up
     def excensures_only_a_record_is_refused(frame):
@@ -397,7 +398,7 @@ class _parse_board_settings_json:
     raises = {Exception: 'onlyif'}
     exc_havoc = True
     modifies = ['fp']
-    loops = {0: LoopContract(invariant=_list_inv, havoc_heap=dict(outputs=TraceReset()),
+    loops = {0: LoopContract(invariant=_list_inv, havoc_heap=dict(outputs=TracePrefix()),
                              body_ensures=dict(
                                  record_converted_in_place=_setting_converted_in_place))}
     # C12/C17: both kinds of document are accepted whatever the number of boards (none included);
